@@ -262,6 +262,74 @@ pub fn check_zeroize(c: &Case) -> Result<(), String> {
     Ok(())
 }
 
+// ---------------------------------------------------------------------------
+// zeroize, then free: what is in the object's memory when it goes back to the allocator
+// ---------------------------------------------------------------------------
+// The object lives in a Box, is wiped with zeroize() and dropped without anyone reading it in between (the normal
+// use). The global allocator of the harness (engine/spyalloc, a crate of its own) records the block at the moment
+// it is freed. A wipe that the optimiser may treat as a dead store in front of `free` shows up here and nowhere else.
+#[inline(never)]
+fn wipe_and_free_hash(h: blake3::Hash) {
+    let mut b = Box::new(h);
+    spyalloc::watch(b.as_bytes().as_ptr(), 32);
+    b.zeroize();
+}
+
+#[inline(never)]
+fn wipe_and_free_hasher(h: blake3::Hasher) {
+    let mut b = Box::new(h);
+    spyalloc::watch(&*b as *const blake3::Hasher as *const u8, std::mem::size_of::<blake3::Hasher>());
+    b.zeroize();
+}
+
+#[inline(never)]
+fn wipe_and_free_reader(r: blake3::OutputReader) {
+    let mut b = Box::new(r);
+    spyalloc::watch(&*b as *const blake3::OutputReader as *const u8, std::mem::size_of::<blake3::OutputReader>());
+    b.zeroize();
+}
+
+pub fn check_freed(c: &Case) -> Result<(), String> {
+    if !spyalloc::installed() {
+        return Ok(()); // another global allocator is in place (fuzzer runtime): nothing to observe
+    }
+    let s = &c.secrets[0];
+    let mode = mode_of(c, s);
+    let data = s.content.expand(c.budget as usize);
+    let mut h = mode.hasher();
+    let mut model = b3spec::Incr::new(mode.kf());
+    let mut cursor = 0usize;
+    for sz in &c.sizes {
+        let n = sz.resolve(model.len(), data.len() - cursor);
+        h.update(&data[cursor..cursor + n]);
+        model.push(&data[cursor..cursor + n]);
+        cursor += n;
+    }
+    let mut secrets = secrets_of(&mode, &model);
+    let out = model.output();
+    let hash = h.finalize();
+    secrets.push(("the hash value".into(), hash.as_bytes().to_vec()));
+    secrets.push(("root node input CV".into(), b3spec::bytes_from_words_8(&out.cv).to_vec()));
+    secrets.push(("root node block".into(), b3spec::bytes_from_words_16(&out.block).to_vec()));
+    let wins = windows(&secrets);
+    let mut reader = h.finalize_xof();
+    reader.set_position(c.xof_pos);
+    let look = |what: &str| -> Result<(), String> {
+        let snap = spyalloc::take_snapshot().ok_or_else(|| format!("ENGINE: the watched {} was never handed back to the allocator", what))?;
+        let found = located(&snap, &wins, secrets.len());
+        for (i, f) in found.iter().enumerate() {
+            ensure!(!*f, "{} freed right after zeroize() still holds {} ({} bytes absorbed)", what, secrets[i].0, model.len());
+        }
+        Ok(())
+    };
+    wipe_and_free_hash(std::hint::black_box(hash));
+    look("Box<Hash>")?;
+    wipe_and_free_reader(std::hint::black_box(reader));
+    look("Box<OutputReader>")?;
+    wipe_and_free_hasher(std::hint::black_box(h));
+    look("Box<Hasher>")
+}
+
 fn dry_len(c: &Case) -> usize {
     let mut total = 0usize;
     let mut cursor = 0usize;
@@ -326,6 +394,16 @@ pub fn subs() -> Vec<Box<dyn DynSub>> {
             strategy,
             classify,
             check: check_zeroize,
+            known: None,
+            crumb: false,
+        }),
+        Box::new(PropSub::<Case> {
+            name: "freed-after-zeroize",
+            rule: "proptest: same shapes; Hash, OutputReader and Hasher are boxed, wiped with zeroize() and dropped with no read in between; the harness's global allocator (engine/spyalloc) records the block as it is handed back; no 8-byte window of any secret (incl. the hash value itself) may be in it. Sees wipes that an optimiser removes as dead stores before `free`, which reading the object back (the `zeroize` sub) cannot",
+            cases: (8_000, 80_000),
+            strategy,
+            classify,
+            check: check_freed,
             known: None,
             crumb: false,
         }),
